@@ -77,6 +77,16 @@ func ZZ_C10_UniqueReferences() {
 				vx.Assert("update addressed to the first reference answered 200", vx.HTTPStatus(c3) == 200)
 				vx.Assert("the update acts on the record of the session it addresses", len(zzUsageList(ue, ref1)) == before1+1)
 				vx.Assert("and on no other session's record", len(zzUsageList(ue, ref2)) == before2)
+				// ... and so does a release addressed to it (the two sessions may
+				// well carry the same consumer-chosen charging id)
+				r, _ := zzUsageInd("rel", 1, 1, 1)
+				zzSmallUsage(&r)
+				c4 := &gin.Context{}
+				p.HandleChargingdataRelease(c4, models.ChfConvergedChargingChargingDataRequest{SubscriberIdentifier: supi1,
+					MultipleUnitUsage: []models.ChfConvergedChargingMultipleUnitUsage{r}}, ref1)
+				vx.Assert("release addressed to the first reference answered 204", vx.HTTPStatus(c4) == 204)
+				vx.Assert("the release acts on the record of the session it addresses", len(zzUsageList(ue, ref1)) == before1+2)
+				vx.Assert("and leaves the other session's record alone", len(zzUsageList(ue, ref2)) == before2)
 			}
 		}
 	}
